@@ -95,8 +95,12 @@ const IV: Label = Label::Int(iana::HeaderParameter::Iv as i64);
 const PARTIAL_IV: Label = Label::Int(iana::HeaderParameter::PartialIv as i64);
 const COUNTER_SIG: Label = Label::Int(iana::HeaderParameter::CounterSignature as i64);
 
-impl AsCborValue for Header {
-    fn from_cbor_value(value: Value) -> Result<Self> {
+/// Maximum nesting of protected headers within counter signatures within headers.
+pub(crate) const MAX_HEADER_NESTING: usize = 16;
+
+impl Header {
+    /// Convert a [`Value`] into a `Header` that sits `depth` protected headers deep.
+    pub(crate) fn from_cbor_value_nested(value: Value, depth: usize) -> Result<Self> {
         let m = value.try_as_map()?;
         let mut headers = Self::default();
         let mut seen = BTreeSet::new();
@@ -180,12 +184,15 @@ impl AsCborValue for Header {
                     match &sig_or_sigs[0] {
                         Value::Bytes(_) => headers
                             .counter_signatures
-                            .push(CoseSignature::from_cbor_value(Value::Array(sig_or_sigs))?),
+                            .push(CoseSignature::from_cbor_value_nested(
+                                Value::Array(sig_or_sigs),
+                                depth,
+                            )?),
                         Value::Array(_) => {
                             for sig in sig_or_sigs.into_iter() {
                                 headers
                                     .counter_signatures
-                                    .push(CoseSignature::from_cbor_value(sig)?);
+                                    .push(CoseSignature::from_cbor_value_nested(sig, depth)?);
                             }
                         }
                         v => return cbor_type_error(v, "array or bstr value"),
@@ -204,6 +211,12 @@ impl AsCborValue for Header {
             }
         }
         Ok(headers)
+    }
+}
+
+impl AsCborValue for Header {
+    fn from_cbor_value(value: Value) -> Result<Self> {
+        Self::from_cbor_value_nested(value, 0)
     }
 
     fn to_cbor_value(mut self) -> Result<Value> {
@@ -361,12 +374,21 @@ impl ProtectedHeader {
     /// Constructor from a [`Value`] that holds a `bstr` encoded header.
     #[inline]
     pub fn from_cbor_bstr(val: Value) -> Result<Self> {
+        Self::from_cbor_bstr_nested(val, 0)
+    }
+
+    /// Variant of [`Self::from_cbor_bstr`] for a header that sits `depth` protected headers deep.
+    pub(crate) fn from_cbor_bstr_nested(val: Value, depth: usize) -> Result<Self> {
         let data = val.try_as_bytes()?;
         let header = if data.is_empty() {
             // An empty bstr is used as a short cut for an empty header map.
             Header::default()
+        } else if depth >= MAX_HEADER_NESTING {
+            return Err(CoseError::DecodeFailed(
+                crate::cbor::de::Error::RecursionLimitExceeded,
+            ));
         } else {
-            Header::from_slice(&data)?
+            Header::from_cbor_value_nested(crate::common::read_to_value(&data)?, depth + 1)?
         };
         Ok(ProtectedHeader {
             original_data: Some(data),
